@@ -716,7 +716,61 @@ func (e *Engine) doCallValues(p *Path, fr *Frame, c *ssa.CallCommon, fnVal Value
 		names, tys := sigNames(fn.Signature, fn)
 		return e.applyContract(p, fr, ct, shortKey(key), e.pkgOfFunc(fn), fn.Signature, names, tys, args, dst, pos)
 	}
+	if (e.curCt == nil || !e.curCt.Havoc) && e.autoInlinable(p, fn) {
+		// A helper of this module that has no contract, no loop and is not already being executed is
+		// executed in place: extracting a few statements into a function does not change what is proved.
+		e.AutoInlined[shortKey(key)] = true
+		nf := e.newFrame(fn, args, bind)
+		nf.autoInl = true
+		nf.retDst = dst
+		nf.isDefer = isDefer
+		if len(p.stack) > 40 {
+			execFail("inlining too deep at %s", fn)
+		}
+		p.stack = append(p.stack, nf)
+		return nil
+	}
 	return e.unknownCall(p, fr, key, fn.Signature, dst, pos)
+}
+
+// autoInlinable: a function of the module under verification with a body, without loops, not on the
+// current call stack (no recursion) and not too deep.
+func (e *Engine) autoInlinable(p *Path, fn *ssa.Function) bool {
+	if fn == nil || len(fn.Blocks) == 0 || fn.Pkg == nil || fn.Pkg.Pkg == nil {
+		return false
+	}
+	if pp := fn.Pkg.Pkg.Path(); pp != ModulePath && !strings.HasPrefix(pp, ModulePath+"/") {
+		return false
+	}
+	if len(fn.Blocks) > 40 {
+		return false
+	}
+	auto := 0
+	for _, f := range p.stack {
+		if f.fn == fn {
+			return false
+		}
+		if f.autoInl {
+			auto++
+		}
+	}
+	if auto >= 3 {
+		return false
+	}
+	for _, b := range fn.Blocks {
+		for _, s := range b.Succs {
+			if s.Dominates(b) {
+				return false
+			}
+		}
+		for _, in := range b.Instrs {
+			switch in.(type) {
+			case *ssa.Go, *ssa.Select:
+				return false
+			}
+		}
+	}
+	return true
 }
 
 func shortKey(k string) string {
@@ -1188,6 +1242,10 @@ func (e *Engine) intrinsic(p *Path, fr *Frame, key string, fn *ssa.Function, arg
 	case "math::NaN":
 		use()
 		return BVU(0x7ff8000000000001, 64), true
+	case "math::Abs":
+		// exact: clears the sign bit (also of NaNs and infinities)
+		use()
+		return BVBin("bvand", args[0].(*Term), BVU(0x7fffffffffffffff, 64)), true
 	case "math::Signbit":
 		use()
 		return Eq(Extract(63, 63, args[0].(*Term)), BVU(1, 1)), true
